@@ -60,8 +60,16 @@ pub fn read_graphml_string(string: &str, specs: GraphSpecs) -> Result<Graph<Stri
     let mut edges: Vec<Arc<Edge<String, ()>>> = vec![];
     let mut last_element_name: String = "".to_string();
     let mut edge_weight_attr_name = "weight".to_string();
+    // true when the previous event was the start tag of an edge weight <data> element,
+    // i.e. when a text event is the weight; only a comment may stand in between
+    let mut expect_weight_text = false;
     loop {
-        match reader.read_event_into(&mut buf) {
+        let event = reader.read_event_into(&mut buf);
+        let weight_text_expected = expect_weight_text;
+        if !matches!(event, Ok(Event::Comment(_))) {
+            expect_weight_text = false;
+        }
+        match event {
             Ok(Event::Empty(ref e)) => match e.name().as_ref() {
                 b"node" => {
                     let result = add_node(&mut nodes, e);
@@ -127,28 +135,23 @@ pub fn read_graphml_string(string: &str, specs: GraphSpecs) -> Result<Graph<Stri
                         if attrs.contains_key("key") {
                             let key = attrs.get("key").unwrap();
                             if key == &edge_weight_attr_name {
-                                let mut buf = Vec::new();
-                                match reader.read_event_into(&mut buf) {
-                                    Ok(Event::Text(e)) => {
-                                        let weight = str::from_utf8(&e).map_err(|_| {
-                                            get_read_error("an edge weight is not valid UTF-8")
-                                        })?;
-                                        match last_element_name.as_str() {
-                                            "edge" => {
-                                                let edge = Arc::make_mut(edges.last_mut().unwrap());
-                                                edge.weight = weight.parse::<f64>().map_err(|_| {
-                                                    get_read_error("an edge weight is not a number")
-                                                })?;
-                                            }
-                                            _ => (),
-                                        }
-                                    }
-                                    _ => (),
-                                }
+                                expect_weight_text = true;
                             }
                         }
                     }
                     _ => (),
+                }
+            }
+            Ok(Event::Text(ref e)) => {
+                if weight_text_expected {
+                    let weight = str::from_utf8(e)
+                        .map_err(|_| get_read_error("an edge weight is not valid UTF-8"))?;
+                    if last_element_name == "edge" {
+                        let edge = Arc::make_mut(edges.last_mut().unwrap());
+                        edge.weight = weight
+                            .parse::<f64>()
+                            .map_err(|_| get_read_error("an edge weight is not a number"))?;
+                    }
                 }
             }
             Ok(Event::Eof) => break, // exits the loop when reaching end of file
